@@ -51,8 +51,9 @@ def traced_functions(fam):
     def prof(frame, event, _arg):
         if event == "call":
             fn = frame.f_code.co_filename
-            if fn.startswith("/repo/src/finam/"):
-                seen.add(fn[len("/repo/src/"):-3].replace("/", ".") + ":" + frame.f_code.co_qualname)
+            root = os.environ.get("VERIF_REPO", "/repo") + "/src/"
+            if fn.startswith(root + "finam/"):
+                seen.add(fn[len(root):-3].replace("/", ".") + ":" + frame.f_code.co_qualname)
 
     harness = explore.load(fam["ref"])
     sys.setprofile(prof)
@@ -82,7 +83,7 @@ def main(argv=None):
     if only:
         fams = [f for f in fams if f["name"] in only.split(",")]
     known = load_known()
-    ev_path = os.path.join(ROOT, "evidence", f"{prop}.json")
+    ev_path = os.path.join(os.environ.get("VERIF_EVIDENCE_DIR") or os.path.join(ROOT, "evidence"), f"{prop}.json")
     os.makedirs(os.path.dirname(ev_path), exist_ok=True)
     if os.path.exists(ev_path) and not only:
         os.remove(ev_path)
